@@ -205,7 +205,7 @@ def judge(ctx, spec, tb, fb, tb2=None, fb2=None):
     from soundevent.geometry import operations as O
 
     sp = {"kind": "buffer", "g": spec, "tb": tb, "fb": fb, "tb2": tb2, "fb2": fb2}
-    g = geoms.build(spec)
+    g = geoms.build(spec) if ctx.evaluations % 5 else geoms.build_derived(spec, ctx.rng)
     edge = _mech(spec, tb, fb)
     if tb < 0 or fb < 0:
         ctx.mon("buffer.rejection")
@@ -217,11 +217,24 @@ def judge(ctx, spec, tb, fb, tb2=None, fb2=None):
         except Exception as e:
             ctx.violate_exc("rejects_negative", f"rejects_negative:wrong_exception:{type(e).__name__}", e, spec=sp)
         return
+    if ctx.evaluations % 7 == 0 and spec["type"] not in ("TimeStamp", "TimeInterval", "BoundingBox") and tb > 0 and fb > 0:
+        # some other caller in the same process forwards shapely options; that is its business only
+        try:
+            O.buffer_geometry(g, time_buffer=tb, freq_buffer=fb, **ctx.rng.choice([{"quad_segs": 1}, {"single_sided": True}, {"mitre_limit": 1.0}, {"cap_style": "flat"}]))
+        except Exception:
+            pass
     try:
         r1 = O.buffer_geometry(g, time_buffer=tb, freq_buffer=fb)
     except Exception as e:
         ctx.violate_exc("raises", _key(f"raises:{type(e).__name__}", edge), e, spec=sp)
         return
+    try:
+        again = O.buffer_geometry(g, time_buffer=tb, freq_buffer=fb)
+        ctx.mon("repeat_call")
+        if geoms.to_spec(again) != geoms.to_spec(r1) or geoms.to_spec(g) != geoms.to_spec(geoms.build(spec)):
+            ctx.violate("repeat_call_differs", "repeat_call_differs", observed=geoms.to_spec(again), expected=geoms.to_spec(r1), spec=sp)
+    except Exception as e:
+        ctx.violate_exc("raises", f"raises_on_second_call:{type(e).__name__}", e, spec=sp)
     if tb2 is None or spec["type"] in ("TimeStamp", "TimeInterval", "BoundingBox"):
         if tb2 is not None:
             # closed-form types: monotone by exact widening (checked by the ambient monitor)
